@@ -67,7 +67,7 @@ def ecls(e):
     if isinstance(e, pint.errors.UndefinedUnitError):
         return "XUndefined"
     if name == "NegativeStdDev":          # uncertainties' own refusal of a negative σ
-        return "XValue"
+        return "XNegStd"
     if isinstance(e, ValueError):
         return "XValue"
     if isinstance(e, AssertionError):
@@ -495,7 +495,9 @@ def oracle_ctor(w, c):
     except Exception as exn:
         cls = ecls(exn)
         if want < 0:
-            if cls != "XValue":
+            # pint's own forms must refuse with ValueError; the two ufloat forms are refused by uncertainties
+            good = "XNegStd" if form in ("ufloat", "qtyu") else "XValue"
+            if cls != good:
                 fails.append((f"ctor-negative:{form}:{type(exn).__name__}", f"{c}: negative error raises {type(exn).__name__}, not ValueError"))
             return fails
         if c.get("rel") and "u" in e and cls == "XValue":
